@@ -17,7 +17,7 @@ EXEMPT = {('chython/algorithms/smiles.py', 'Smiles.__hash__'), ('chython/contain
 OK_LEAVES = {'int', 'bool', 'none', 'obj:atom', 'obj:bond', 'obj:self'}
 FINISH = dict(
     rule='H: one obligation per hash() call site of the anchored files; B: (molecule, observable) pairs across processes',
-    explanation='A structural type inference over the AST (declared facts: source annotations and the attribute-type table derived from the setters) '
+    explanation='F: no memoised value read by this property\'s observables survives an edit it depends on (one obligation per covered mutator x cached key); A structural type inference over the AST (declared facts: source annotations and the attribute-type table derived from the setters) '
                 'shows that every hashed value is a tuple tree of ints / bools / None; CPython hashes those independently of PYTHONHASHSEED. '
                 'Objects hashed as atoms or bonds go through their own __hash__, which is a site of its own.',
     trusted_base=['CPython: hash of int / bool / None / tuples thereof is seed independent (None: constant since 3.12)', 'frames/hashtypes.py',
